@@ -70,12 +70,12 @@ theorem trap_signatures :
     trapDef 0x26 = none := by decide
 
 /-- JSR/JSRR: depth + 1, the pushed frame's caller is the address of the JSR itself -/
-theorem jsr_pushes (s : Sim) (op : ImmOrReg 11) (hs : s.flags.strict = false) (hp : s.prefetch = false) :
+theorem jsr_pushes (s : Sim) (op : ImmOrReg 11) (hs : s.flags.strict = false) :
     ∃ s', execInstr (.jsr op) s = (.ok (), s') ∧ s'.frameNo = s.frameNo + 1 ∧
       (FramesInv s → FramesInv s') := by
   rw [C08.exec_jsr s op hs]
   refine ⟨_, rfl, ?_, ?_⟩
-  · simp only [push_depth]; rfl
+  · simp only [push_depth]
   · intro h
     have : FramesInv (s.setReg R7 (Word.ofData s.pc)) := h
     have h2 := push_inv _ (s.setReg R7 (Word.ofData s.pc)).prefetchPc
